@@ -6,6 +6,8 @@
 (* the logged uniseg width of its grapheme, and for pure-text inputs the    *)
 (* Print boundaries must be the grapheme-cluster boundaries (logged fact    *)
 (* cb), except that a cluster may be split at a read boundary (rb).         *)
+(* errs is the number of error values that arrived among the items: none is *)
+(* allowed when every input character has a table entry (TableCoversAll).   *)
 EXTENDS VT500, TLC, Json, IOUtils
 
 Trace == ndJsonDeserialize(IOEnv.TRACE)
@@ -50,6 +52,7 @@ Why(e) ==
   IF e.panic THEN "panic"
   ELSE IF ~e.closed THEN "no-eof-or-not-closed"
   ELSE IF ~Accepts(e) THEN "items"
+  ELSE IF e.errs > 0 /\ TableCoversAll(e.in) THEN "error-value-for-table-covered-input"
   ELSE IF ~WidthsOK(e.items) THEN "width"
   ELSE ClusterWhy(e)
 
